@@ -52,13 +52,13 @@ theorem header_runs (mc : MCfg) (hook : Hook) (p : Nat) (hp5 : p ≤ 5) (fr : By
       simp [runFrom, exec]
 
 /-- The common core: header, object, STOP. -/
-theorem decode_cpickle (cfg : Cfg) (hook : Hook) (p : Nat) (hp5 : p ≤ 5) (v : PyObj) (b : Bytes) (n' : Nat)
-    (hok : pkOK cfg p v) (hsave : cpSave p v 0 = some (b, n')) (fr : Bytes) (hfr : fr = [] ∨ ∃ n, fr = 0x95 :: le8 n)
+theorem decode_cpickle (cfg : Cfg) (hook : Hook) (py : Bool) (p : Nat) (hp5 : p ≤ 5) (v : PyObj) (b : Bytes) (n' : Nat)
+    (hok : pkOK cfg p v) (hsave : cpSave py p v 0 = some (b, n')) (fr : Bytes) (hfr : fr = [] ∨ ∃ n, fr = 0x95 :: le8 n)
     (st0 : DState) :
     ∃ r st', decode (goCfg cfg) hook st0 ((if p ≥ 2 then [0x80, UInt8.ofNat p] else []) ++ fr ++ (b ++ [46])) = (.ok r, st', []) ∧
       Rep (goCfg cfg) GoVal.ref st'.heap r (goOf v) := by
   obtain ⟨his, hph, hrh⟩ := header_runs (goCfg cfg) hook p hp5 fr hfr
-  obtain ⟨is, hpar, hrun⟩ := pk_val (mc := goCfg cfg) (hook := hook) rfl p v 0 b n' hok hsave
+  obtain ⟨is, hpar, hrun⟩ := pk_val (mc := goCfg cfg) (hook := hook) rfl py p v 0 b n' hok hsave
   let sta : DState := { st0 with stack := [], proto := 0 }
   let st1 : DState := { sta with proto := if p ≥ 2 then p else sta.proto }
   have hpo : ProtoOK (ecfg p) st1 := by
@@ -93,46 +93,46 @@ theorem decode_cpickle (cfg : Cfg) (hook : Hook) (p : Nat) (hp5 : p ≤ 5) (v : 
     `PyFloatTextOK` (ParseFloat reads Python's repr back — not proved, as `FloatTextOK` in C03).  That the
     decoder's raw-unicode-escape reading inverts CPython's protocol-0 writing of text is proved
     (`cpRue_inv`, `cpRue_no_lf`), as is that the least LONG1 width holds the number (`long1Width_fits`). -/
-theorem C02_pickler (cfg : Cfg) (hook : Hook) (p : Nat) (hp5 : p ≤ 5) (v : PyObj) (bs : Bytes)
-    (hok : pkOK cfg p v) (hd : cpDumps p v = some bs) (st0 : DState) :
+theorem C02_pickler (cfg : Cfg) (hook : Hook) (py : Bool) (p : Nat) (hp5 : p ≤ 5) (v : PyObj) (bs : Bytes)
+    (hok : pkOK cfg p v) (hd : cpDumps py p v = some bs) (st0 : DState) :
     ∃ r st', decode (goCfg cfg) hook st0 bs = (.ok r, st', []) ∧ Rep (goCfg cfg) GoVal.ref st'.heap r (goOf v) := by
   unfold cpDumps cpDumpsBody at hd
-  cases hs : cpSave p v 0 with
+  cases hs : cpSave py p v 0 with
   | none => simp [hs] at hd
   | some r0 =>
     obtain ⟨b, n'⟩ := r0
     simp only [hs, Option.map_some, Option.some.injEq] at hd
     subst hd
-    have := decode_cpickle cfg hook p hp5 v b n' hok hs [] (Or.inl rfl) st0
+    have := decode_cpickle cfg hook py p hp5 v b n' hok hs [] (Or.inl rfl) st0
     simpa using this
 
 /-- The same for the pickle as CPython frames it (protocol 4 and 5: one FRAME around everything after PROTO). -/
-theorem C02_pickler_framed (cfg : Cfg) (hook : Hook) (p : Nat) (hp5 : p ≤ 5) (v : PyObj) (bs : Bytes)
-    (hok : pkOK cfg p v) (hd : cpDumpsFramed p v = some bs) (st0 : DState) :
+theorem C02_pickler_framed (cfg : Cfg) (hook : Hook) (py : Bool) (p : Nat) (hp5 : p ≤ 5) (v : PyObj) (bs : Bytes)
+    (hok : pkOK cfg p v) (hd : cpDumpsFramed py p v = some bs) (st0 : DState) :
     ∃ r st', decode (goCfg cfg) hook st0 bs = (.ok r, st', []) ∧ Rep (goCfg cfg) GoVal.ref st'.heap r (goOf v) := by
   unfold cpDumpsFramed cpDumpsBody at hd
-  cases hs : cpSave p v 0 with
+  cases hs : cpSave py p v 0 with
   | none => simp [hs] at hd
   | some r0 =>
     obtain ⟨b, n'⟩ := r0
     simp only [hs, Option.map_some, Option.some.injEq] at hd
     subst hd
     by_cases hf : 4 ≤ p ∧ 3 ≤ b.length
-    · have := decode_cpickle cfg hook p hp5 v b n' hok hs (0x95 :: le8 (b ++ [46]).length) (Or.inr ⟨_, rfl⟩) st0
+    · have := decode_cpickle cfg hook py p hp5 v b n' hok hs (0x95 :: le8 (b ++ [46]).length) (Or.inr ⟨_, rfl⟩) st0
       simpa [hf.1, hf.2] using this
-    · have := decode_cpickle cfg hook p hp5 v b n' hok hs [] (Or.inl rfl) st0
+    · have := decode_cpickle cfg hook py p hp5 v b n' hok hs [] (Or.inl rfl) st0
       simpa [hf] using this
 
 
 
 /-- The core with the memo read: on a Decoder whose memo is empty. -/
-theorem decode_cpickleS (cfg : Cfg) (hook : Hook) (p : Nat) (hp5 : p ≤ 5) (v : PyObjS) (b : Bytes) (s' : PSt)
-    (hok : pkOK cfg p (erase v)) (hsave : cpSaveS p v ⟨0, []⟩ = some (b, s')) (fr : Bytes) (hfr : fr = [] ∨ ∃ n, fr = 0x95 :: le8 n)
+theorem decode_cpickleS (cfg : Cfg) (hook : Hook) (mz : Option PKey → Bool) (py : Bool) (p : Nat) (hp5 : p ≤ 5) (v : PyObjS) (b : Bytes) (s' : PSt)
+    (hok : pkOK cfg p (erase v)) (hsave : cpSaveS mz py p v ⟨0, []⟩ = some (b, s')) (fr : Bytes) (hfr : fr = [] ∨ ∃ n, fr = 0x95 :: le8 n)
     (st0 : DState) (hfresh : st0.memo = []) :
     ∃ r st', decode (goCfg cfg) hook st0 ((if p ≥ 2 then [0x80, UInt8.ofNat p] else []) ++ fr ++ (b ++ [46])) = (.ok r, st', []) ∧
       Rep (goCfg cfg) GoVal.ref st'.heap r (goOf (erase v)) := by
   obtain ⟨his, hph, hrh⟩ := header_runs (goCfg cfg) hook p hp5 fr hfr
-  obtain ⟨is, hpar, hrun⟩ := sk_val (mc := goCfg cfg) (hook := hook) rfl p v ⟨0, []⟩ b s' hok hsave
+  obtain ⟨is, hpar, hrun⟩ := sk_val (mc := goCfg cfg) (hook := hook) rfl py p v ⟨0, []⟩ b s' hok hsave
   let sta : DState := { st0 with stack := [], proto := 0 }
   let st1 : DState := { sta with proto := if p ≥ 2 then p else sta.proto }
   have hpo : ProtoOK (ecfg p) st1 := by
@@ -167,34 +167,34 @@ theorem decode_cpickleS (cfg : Cfg) (hook : Hook) (p : Nat) (hp5 : p ≤ 5) (v :
     induction (`sk_val`), every statement now carrying the memo invariant `MemoInv` — the decoder's memo holds exactly the
     keys "0" … "n-1" and, under each index the pickler may fetch again, the value standing for what was memoized there
     (`MemoInv.put`, `runs_get`); containers remain tree-shaped (a list fetched twice is finding K1). -/
-theorem C02_pickler_shared (cfg : Cfg) (hook : Hook) (p : Nat) (hp5 : p ≤ 5) (v : PyObjS) (bs : Bytes)
-    (hok : pkOK cfg p (erase v)) (hd : cpDumpsFramedS p v = some bs) (st0 : DState) (hfresh : st0.memo = []) :
+theorem C02_pickler_shared (cfg : Cfg) (hook : Hook) (mz : Option PKey → Bool) (py : Bool) (p : Nat) (hp5 : p ≤ 5) (v : PyObjS) (bs : Bytes)
+    (hok : pkOK cfg p (erase v)) (hd : cpDumpsFramedS mz py p v = some bs) (st0 : DState) (hfresh : st0.memo = []) :
     ∃ r st', decode (goCfg cfg) hook st0 bs = (.ok r, st', []) ∧ Rep (goCfg cfg) GoVal.ref st'.heap r (goOf (erase v)) := by
   unfold cpDumpsFramedS cpDumpsBodyS at hd
-  cases hs : cpSaveS p v ⟨0, []⟩ with
+  cases hs : cpSaveS mz py p v ⟨0, []⟩ with
   | none => simp [hs] at hd
   | some r0 =>
     obtain ⟨b, s'⟩ := r0
     simp only [hs, Option.map_some, Option.some.injEq] at hd
     subst hd
     by_cases hf : 4 ≤ p ∧ 3 ≤ b.length
-    · have := decode_cpickleS cfg hook p hp5 v b s' hok hs (0x95 :: le8 (b ++ [46]).length) (Or.inr ⟨_, rfl⟩) st0 hfresh
+    · have := decode_cpickleS cfg hook mz py p hp5 v b s' hok hs (0x95 :: le8 (b ++ [46]).length) (Or.inr ⟨_, rfl⟩) st0 hfresh
       simpa [hf.1, hf.2] using this
-    · have := decode_cpickleS cfg hook p hp5 v b s' hok hs [] (Or.inl rfl) st0 hfresh
+    · have := decode_cpickleS cfg hook mz py p hp5 v b s' hok hs [] (Or.inl rfl) st0 hfresh
       simpa [hf] using this
 
 /-- The same without the frame (what is left of a CPython pickle when its FRAME opcodes are taken out). -/
-theorem C02_pickler_shared_unframed (cfg : Cfg) (hook : Hook) (p : Nat) (hp5 : p ≤ 5) (v : PyObjS) (bs : Bytes)
-    (hok : pkOK cfg p (erase v)) (hd : cpDumpsS p v = some bs) (st0 : DState) (hfresh : st0.memo = []) :
+theorem C02_pickler_shared_unframed (cfg : Cfg) (hook : Hook) (mz : Option PKey → Bool) (py : Bool) (p : Nat) (hp5 : p ≤ 5) (v : PyObjS) (bs : Bytes)
+    (hok : pkOK cfg p (erase v)) (hd : cpDumpsS mz py p v = some bs) (st0 : DState) (hfresh : st0.memo = []) :
     ∃ r st', decode (goCfg cfg) hook st0 bs = (.ok r, st', []) ∧ Rep (goCfg cfg) GoVal.ref st'.heap r (goOf (erase v)) := by
   unfold cpDumpsS cpDumpsBodyS at hd
-  cases hs : cpSaveS p v ⟨0, []⟩ with
+  cases hs : cpSaveS mz py p v ⟨0, []⟩ with
   | none => simp [hs] at hd
   | some r0 =>
     obtain ⟨b, s'⟩ := r0
     simp only [hs, Option.map_some, Option.some.injEq] at hd
     subst hd
-    have := decode_cpickleS cfg hook p hp5 v b s' hok hs [] (Or.inl rfl) st0 hfresh
+    have := decode_cpickleS cfg hook mz py p hp5 v b s' hok hs [] (Or.inl rfl) st0 hfresh
     simpa using this
 
 mutual
@@ -226,10 +226,10 @@ end
 /-- **C02 (CPython's pickler, binary protocols 1–5)**: no text form is used, so the only hypotheses are the
     decidable ones (`pkOKb`: dict keys acceptable and pairwise different for the decoder's table, bytearrays
     below 4 GiB). -/
-theorem C02_pickler_bin (cfg : Cfg) (hook : Hook) (p : Nat) (hp1 : 1 ≤ p) (hp5 : p ≤ 5) (v : PyObj) (bs : Bytes)
-    (hok : pkOKb cfg v = true) (hd : cpDumpsFramed p v = some bs) (st0 : DState) :
+theorem C02_pickler_bin (cfg : Cfg) (hook : Hook) (py : Bool) (p : Nat) (hp1 : 1 ≤ p) (hp5 : p ≤ 5) (v : PyObj) (bs : Bytes)
+    (hok : pkOKb cfg v = true) (hd : cpDumpsFramed py p v = some bs) (st0 : DState) :
     ∃ r st', decode (goCfg cfg) hook st0 bs = (.ok r, st', []) ∧ Rep (goCfg cfg) GoVal.ref st'.heap r (goOf v) :=
-  C02_pickler_framed cfg hook p hp5 v bs (pkOK_of_b cfg p hp1 v hok) hd st0
+  C02_pickler_framed cfg hook py p hp5 v bs (pkOK_of_b cfg p hp1 v hok) hd st0
 
 /-- Non-vacuity: a nested object — a dict keyed by an int, a str and a tuple holding a big int, with list,
     bytes and float values — meets the hypothesis in PyDict mode and is within the pickler model at protocol 4;
@@ -239,7 +239,7 @@ example : pkOKb { pyDict := true, su := true }
                    (.tuple [.int (2 ^ 70), .int (-5)], .bytes [1, 2, 3])], .tuple [], .bytearray [0, 255], .int (-(2 ^ 31) - 1)]) = true := by
   decide
 
-example : (cpDumpsFramed 4
+example : (cpDumpsFramed false 4
     (.list [.dict [(.int 1, .str (sb "a")), (.str (sb "k"), .list [.none, .bool true, .float 0x3ff8000000000000]),
                    (.tuple [.int (2 ^ 70), .int (-5)], .bytes [1, 2, 3])], .tuple [], .int (-(2 ^ 31) - 1)])).isSome = true := by
   decide
@@ -250,7 +250,7 @@ example : pkOKb { pyDict := false, su := false }
 
 /-- Non-vacuity for the memo theorem: two records with the same key objects, the same bytes object twice and a
     bytearray, at protocol 2 (bytes and bytearray through memoized globals): within the model, hypotheses met. -/
-example : (cpDumpsFramedS 2
+example : (cpDumpsFramedS (fun _ => true) true 2
     (.list [.dict [(.str 1 (sb "id"), .int 1), (.str 2 (sb "data"), .bytes 3 [1, 2, 255])],
             .dict [(.str 1 (sb "id"), .int 2), (.str 2 (sb "data"), .bytes 3 [1, 2, 255])], .bytearray 4 [7], .bytes 5 []])).isSome = true := by
   decide
